@@ -14,11 +14,13 @@ structure D where
   hs : List Bool := [true]
   hook : Bool := false      -- `hook` case: the signal does not exist until the first `hlisten`
   hooked : Bool := false    -- listener 0 is the hook_up listener: its emitter lives in its own frame (not assignable)
+  obj : Bool := false       -- `obj` case: the value type's construction can throw (x-flavours); int / void: the x is ignored
 
 def outStr : Out → String
   | Out.val v => s!"v{v}"
   | Out.canceled => "canceled"
   | Out.free => "free"
+  | Out.dead => "vdead"
 
 /-- events = what each listener observed between two model states, by listener id -/
 def events (s0 s1 : State) : List String :=
@@ -38,6 +40,13 @@ def st (s : State) (op : Op) : State := (stepX s op).1
 
 def resumeAll (s : State) (ids : List Nat) : State := ids.foldl (fun s l => st s (Op.resume l)) s
 
+/-- the collector call of one flavour token: `val|rv|conv` by value, `lv` by reference; with a trailing `x` in an `obj` case
+the value's construction throws (`valx|rvx|convx`) — except `lvx`, the reference overload, which constructs nothing -/
+def emitOp (obj : Bool) (fl : String) (v : Nat) : Op :=
+  if fl == "lv" || fl == "lvx" then Op.emit true v
+  else if obj && fl.endsWith "x" then Op.emitFail
+  else Op.emit false v
+
 def parseScript (w : String) : List Act :=
   w.toList.filterMap fun c => if c == 'r' then some Act.re else if c == 'g' then some Act.gate
     else if c == 'x' then some Act.exit else none
@@ -50,7 +59,7 @@ def dropAll (s : State) : Nat → State
   | n + 1 => if s.handles = 0 then s else dropAll (st s Op.dropHandle) n
 
 /-- one `burst` token inside the emitting coroutine; returns (state, queued, text) -/
-def burstTok (s : State) (queued : List Nat) (tok : String) : State × List Nat × String :=
+def burstTok (obj : Bool) (s : State) (queued : List Nat) (tok : String) : State × List Nat × String :=
   if tok == "X" then
     let s1 := dropAll s (s.handles + 1)
     (s1, queued ++ newRel s s1, "x")
@@ -58,8 +67,9 @@ def burstTok (s : State) (queued : List Nat) (tok : String) : State × List Nat 
     match tok.splitOn ":" with
     | [m, fl, v] =>
       if s.handles = 0 then (s, queued, "-")
+      else if emitOp obj fl 0 == Op.emitFail then (st s Op.emitFail, queued, "!")
       else
-        let s1 := st s (Op.emit (fl == "lv") (v.toNat?.getD 0))
+        let s1 := st s (emitOp obj fl (v.toNat?.getD 0))
         let nr := newRel s s1
         let q := queued ++ nr
         -- `co_await sp` suspends the emitting coroutine only when the suspend point is not empty
@@ -82,7 +92,8 @@ def doLine (d : D) (ws : List String) : D × String :=
           let (s2, q, txt) := toks.foldl (fun (acc : State × List Nat × List String) tok =>
               match tok.splitOn ":" with
               | [_, fl, v] =>
-                  let s1 := st acc.1 (Op.emit (fl == "lv") (v.toNat?.getD 0))
+                  if emitOp d.obj fl 0 == Op.emitFail then (st acc.1 Op.emitFail, acc.2.1, acc.2.2 ++ ["!"]) else
+                  let s1 := st acc.1 (emitOp d.obj fl (v.toNat?.getD 0))
                   let nr := newRel acc.1 s1
                   (s1, acc.2.1 ++ nr, acc.2.2 ++ [toString nr.length])
               | _ => acc) (s1, [], [])
@@ -143,11 +154,12 @@ def doLine (d : D) (ws : List String) : D × String :=
       let (s1, r) := stepX s (Op.connectL (n.toNat?.getD 0))
       ({ d with s := s1 }, match r with | Res.id l => s!"connectl C{l}" | _ => "bad-op")
   | "emit" :: fl :: v :: rest =>
-      let (s1, r) := stepX s (Op.emit (fl == "lv") (v.toNat?.getD 0))
+      let (s1, r) := stepX s (emitOp d.obj fl (v.toNat?.getD 0))
       match r with
       | Res.num n =>
           if rest == ["hold"] then ({ d with s := s1, held := d.held ++ [newRel s s1] }, s!"emit rel={n}")
           else ({ d with s := resumeAll s1 (newRel s s1) }, s!"emit rel={n}")
+      | Res.threw => ({ d with s := s1 }, "emit threw")     -- no suspend point was returned: nothing to hold
       | _ => (d, "bad-op")
   | ["flush"] =>
       match d.held with
@@ -156,7 +168,7 @@ def doLine (d : D) (ws : List String) : D × String :=
   | "burst" :: toks =>
       if toks.isEmpty then (d, "bad-op") else
       let (s1, q, txt) := toks.foldl (fun (acc : State × List Nat × List String) tok =>
-          let (s1, q, t) := burstTok acc.1 acc.2.1 tok
+          let (s1, q, t) := burstTok d.obj acc.1 acc.2.1 tok
           (s1, q, acc.2.2 ++ [t])) (s, [], [])
       let hs := if s1.handles = 0 then d.hs.map (fun _ => false) else d.hs
       ({ d with s := resumeAll s1 q, hs := hs }, "burst rel=" ++ joinWith "," txt)
@@ -201,7 +213,7 @@ partial def loop (lines : Array String) (i : Nat) (st : Option D) : IO Unit := d
     match ws, st with
     | ("case" :: id :: rest), _ =>
         IO.println s!"case {id}"
-        loop lines (i+1) (some { hook := rest.getD 2 "" == "hook" })
+        loop lines (i+1) (some { hook := rest.getD 2 "" == "hook", obj := rest.getD 1 "" == "obj" })
     | ["end"], some d =>
         let (d1, head) := doEnd d
         IO.println (withEvents head (events d.s d1.s))
